@@ -14,25 +14,20 @@ theorem oggflac_info_decodes (h : OggFlac.Fields) (ok : h.OK) :
     Info.OggFlac.parse (OggFlac.build h) = .ok (OggFlac.expected h) :=
   Info.OggFlac.parse_build h ok
 
-/-- C04 side, as far as it holds: on EVERY byte string the result is a value, the format's error, or
-`struct.error` — which `OggFileType.load` does not catch -/
-theorem oggflac_info_classes (f : Bytes) : ∀ e, Info.OggFlac.parse f = .error e → e = .mutagen ∨ e = .struct_ :=
-  loadWrap_struct _ (fun e h => Info.OggFlac.raw_classes f e h)
+/-- C04 side: on EVERY byte string the result is a value or the format's error (without the handlers of
+`OggFileType.load`: `error` or EOFError) -/
+theorem oggflac_info_total (f : Bytes) : ∀ e, Info.OggFlac.parse f = .error e → e = .mutagen :=
+  loadWrap_clean _ (fun e h => Info.OggFlac.raw_classes f e h)
 
-/-- the witness: a page whose first packet is 0x7F "FLAC" 01 00 00 (8 bytes; `struct.unpack(">BBH4s",
-packet[5:13])` gets three) -/
+theorem oggflac_info_raw_classes (f : Bytes) : ∀ e, Info.OggFlac.raw f = .error e → e = .mutagen ∨ e = .eof :=
+  fun e h => Info.OggFlac.raw_classes f e h
+
+/-- the former witness of an escaping `struct.error` (repaired in /repo 808f0c2): a page whose first packet is
+0x7F "FLAC" 01 00 00 (8 bytes, the header needs 13) — now OggFLACHeaderError("truncated ID header") -/
 def oggFlacShortHeader : Bytes :=
   renderB { packets := [Info.OggFlac.magic ++ [1, 0, 0]], first := true, serial := 1 }
 
-theorem oggflac_struct_error_witness : Info.OggFlac.parse oggFlacShortHeader = .error .struct_ := by
-  decide +kernel
-
-/-- C04 side, partial: when the packet in which the header search ends is at least 13 bytes long, the
-result is a value or the format's error -/
-theorem oggflac_info_total_partial (f : Bytes)
-    (hlong : ∀ p, OggC.findHeader Info.OggFlac.magic f = .ok p → 13 ≤ (p.packets.headD []).length) :
-    ∀ e, Info.OggFlac.parse f = .error e → e = .mutagen :=
-  loadWrap_clean _ (fun e h => Info.OggFlac.raw_classes_long f hlong e h)
+example : Info.OggFlac.parse oggFlacShortHeader = .error .mutagen := by decide +kernel
 
 /-! non-vacuity -/
 example : ({ numHeaders := 1, blockHead := 0,
